@@ -43,6 +43,7 @@ type Op struct {
 	Kind string `json:"op"` // "set" | "get" | "keys"
 	K    string `json:"k,omitempty"`
 	V    string `json:"v,omitempty"`
+	R    int    `json:"r,omitempty"` // target record (fan-out layout only)
 }
 
 // model: the statement's map-over-list semantics.
@@ -118,22 +119,88 @@ func (c *modelCarrier) Keys() []string      { return c.m.keys() }
 
 type failure struct{ key, what string }
 
-// runCarrier executes ops on a fresh record carrying init and on the model.
-func runCarrier(init model, ops []Op) (fail *failure, outcome uint64) {
+// How the value bytes of the initial headers are laid out in memory.
+const (
+	aliasFresh     = "fresh"      // every value its own allocation
+	aliasSameBytes = "same-bytes" // headers with equal values share one []byte (two headers built from one slice)
+	aliasOneBuffer = "one-buffer" // all values are consecutive sub-slices of one buffer, capacity running to its end
+	aliasFanOut    = "fan-out"    // two records whose Headers slices are shallow copies of one source (separate slices, shared value bytes)
+)
+
+// guard remembers memory that existed before any carrier operation: Set must
+// never write into it (it may only store newly allocated values).
+type guard struct{ mem, snap []byte }
+
+func newGuard(b []byte) guard { return guard{b, append([]byte{}, b...)} }
+
+// buildAliased lays out init under mode. It returns the records (two for
+// fan-out) and the guards over every pre-existing value byte.
+func buildAliased(init model, mode string) (recs []*kgo.Record, guards []guard) {
+	var hs []kgo.RecordHeader
+	switch mode {
+	case aliasSameBytes:
+		shared := map[string][]byte{}
+		for _, h := range init {
+			b, ok := shared[h.V]
+			if !ok {
+				b = []byte(h.V)
+				shared[h.V] = b
+				guards = append(guards, newGuard(b))
+			}
+			hs = append(hs, kgo.RecordHeader{Key: h.K, Value: b})
+		}
+	case aliasOneBuffer:
+		var buf []byte
+		for _, h := range init {
+			buf = append(buf, h.V...)
+		}
+		buf = append(buf, "...."...) // spare room behind the last value
+		off := 0
+		for _, h := range init {
+			hs = append(hs, kgo.RecordHeader{Key: h.K, Value: buf[off : off+len(h.V)]}) // capacity runs on
+			off += len(h.V)
+		}
+		guards = append(guards, newGuard(buf))
+	default:
+		hs = headersOf(init)
+		for _, h := range hs {
+			guards = append(guards, newGuard(h.Value))
+		}
+	}
+	recs = []*kgo.Record{{Headers: hs}}
+	if mode == aliasFanOut {
+		recs = append(recs, &kgo.Record{Headers: append([]kgo.RecordHeader(nil), hs...)})
+	}
+	return recs, guards
+}
+
+// runCarrier executes ops on record(s) carrying init (laid out per mode) and
+// on the list model; after every operation every header of every record is
+// compared with the model and every pre-existing value byte with its snapshot.
+func runCarrier(init model, ops []Op, mode string) (fail *failure, outcome uint64) {
 	defer func() {
 		if p := recover(); p != nil {
 			fail = &failure{"carrier-panic", fmt.Sprintf("panic: %v", p)}
 		}
 	}()
-	rec := &kgo.Record{Headers: headersOf(init)}
-	c := kotel.NewRecordCarrier(rec)
-	m := init
+	recs, guards := buildAliased(init, mode)
+	ms := make([]model, len(recs))
+	for i := range ms {
+		ms[i] = init
+	}
 	h := fnv.New64a()
 	for i, op := range ops {
+		if op.R >= len(recs) {
+			continue
+		}
+		rec := recs[op.R]
+		c := kotel.NewRecordCarrier(rec)
+		m := ms[op.R]
 		switch op.Kind {
 		case "set":
 			c.Set(op.K, op.V)
 			m = m.set(op.K, op.V)
+			ms[op.R] = m
 			if got := c.Get(op.K); got != op.V {
 				return &failure{"set-then-get", fmt.Sprintf("op %d: after Set(%q,%q) Get(%q)=%q; headers now %s", i, op.K, op.V, op.K, got, fmtHeaders(rec.Headers))}, 0
 			}
@@ -150,11 +217,25 @@ func runCarrier(init model, ops []Op) (fail *failure, outcome uint64) {
 			}
 			h.Write([]byte(strings.Join(got, ",") + "\x01"))
 		}
-		if !sameHeaders(rec.Headers, m) {
-			return &failure{"other-header-changed/" + op.Kind, fmt.Sprintf("op %d %+v: headers are %s, expected %s (only the first header with the key may change, or one header be appended)", i, op, fmtHeaders(rec.Headers), fmtModel(m))}, 0
+		for ri := range recs {
+			if !sameHeaders(recs[ri].Headers, ms[ri]) {
+				key := "other-header-changed/" + op.Kind
+				if ri != op.R {
+					key = "other-record-changed/" + op.Kind
+				}
+				return &failure{key, fmt.Sprintf("op %d %+v (layout %s): headers of record %d are %s, expected %s (only the first header with the key in the target record may change, or one header be appended to it)", i, op, mode, ri, fmtHeaders(recs[ri].Headers), fmtModel(ms[ri]))}, 0
+			}
+		}
+		for _, g := range guards {
+			if string(g.mem) != string(g.snap) {
+				return &failure{"wrote-into-existing-bytes/" + op.Kind, fmt.Sprintf("op %d %+v (layout %s): value bytes that existed before the operation changed from %q to %q (a carrier may only store newly allocated values)", i, op, mode, g.snap, g.mem)}, 0
+			}
 		}
 	}
-	h.Write([]byte(fmtModel(m)))
+	for ri := range ms {
+		h.Write([]byte(fmtModel(ms[ri])))
+	}
+	h.Write([]byte(mode))
 	return nil, h.Sum64()
 }
 
@@ -203,56 +284,80 @@ func partA(r *ev.Run) {
 			halpha = append(halpha, KV{k, v})
 		}
 	}
-	var oalpha []Op
-	for _, k := range []string{"k1", "k2", "k3"} {
-		for _, v := range []string{"a", "b", "c"} {
-			oalpha = append(oalpha, Op{Kind: "set", K: k, V: v})
+	opAlpha := func(values []string, records int) []Op {
+		var out []Op
+		for rr := 0; rr < records; rr++ {
+			for _, k := range []string{"k1", "k2", "k3"} {
+				for _, v := range values {
+					out = append(out, Op{Kind: "set", K: k, V: v, R: rr})
+				}
+			}
+			for _, k := range []string{"k1", "k2", "k3"} {
+				out = append(out, Op{Kind: "get", K: k, R: rr})
+			}
+			out = append(out, Op{Kind: "keys", R: rr})
 		}
+		return out
 	}
-	for _, k := range []string{"k1", "k2", "k3"} {
-		oalpha = append(oalpha, Op{Kind: "get", K: k})
-	}
-	oalpha = append(oalpha, Op{Kind: "keys"})
-
 	lists := allLists(halpha, maxList)
-	seqs := allSeqs(oalpha, maxSeq)
 	r.Set("carrier_header_lists", len(lists))
-	r.Set("carrier_op_sequences", len(seqs))
 	r.Set("bound_completed_carrier", map[string]int{"max_headers": maxList, "max_ops": maxSeq})
 
-	var wg sync.WaitGroup
-	var next int64
-	for w := 0; w < ev.Workers(); w++ {
-		wg.Add(1)
-		go func() {
-			defer wg.Done()
-			out := map[uint64]struct{}{}
-			for {
-				li := int(atomic.AddInt64(&next, 1) - 1)
-				if li >= len(lists) {
-					break
-				}
-				for _, ops := range seqs {
-					f, o := runCarrier(lists[li], ops)
-					if f != nil {
-						r.Violation(f.key, f.what, map[string]any{"part": "carrier", "headers": lists[li], "ops": ops})
-						continue
-					}
-					out[o] = struct{}{}
-				}
-				r.Evals(int64(len(seqs)))
-				if r.Violations() > 100 {
-					r.NotExhaustive("stopped after more than 100 violations")
-					break
-				}
-			}
-			for o := range out {
-				r.DistinctHash(o)
-			}
-		}()
+	// one stage per memory layout of the initial values; in the one-buffer
+	// layout Set also writes a longer value (it would run into the neighbour's
+	// bytes if the old buffer were reused); fan-out addresses either record.
+	type stageT struct {
+		mode string
+		seqs [][]Op
 	}
-	wg.Wait()
-	r.Sample(map[string]any{"part": "carrier", "headers": lists[len(lists)/2], "ops": seqs[len(seqs)/3]})
+	fanSeq := maxSeq
+	if fanSeq > 3 {
+		fanSeq = 3
+	}
+	stages := []stageT{
+		{aliasFresh, allSeqs(opAlpha([]string{"a", "b", "c"}, 1), maxSeq)},
+		{aliasSameBytes, allSeqs(opAlpha([]string{"a", "b", "c"}, 1), maxSeq)},
+		{aliasOneBuffer, allSeqs(opAlpha([]string{"a", "c", "ccc"}, 1), maxSeq)},
+		{aliasFanOut, allSeqs(opAlpha([]string{"a", "b", "c"}, 2), fanSeq)},
+	}
+	seqCounts := map[string]int{}
+	for _, st := range stages {
+		seqCounts[st.mode] = len(st.seqs)
+		var wg sync.WaitGroup
+		var next int64
+		for w := 0; w < ev.Workers(); w++ {
+			wg.Add(1)
+			go func() {
+				defer wg.Done()
+				out := map[uint64]struct{}{}
+				for {
+					li := int(atomic.AddInt64(&next, 1) - 1)
+					if li >= len(lists) {
+						break
+					}
+					for _, ops := range st.seqs {
+						f, o := runCarrier(lists[li], ops, st.mode)
+						if f != nil {
+							r.Violation(f.key, f.what, map[string]any{"part": "carrier", "layout": st.mode, "headers": lists[li], "ops": ops})
+							continue
+						}
+						out[o] = struct{}{}
+					}
+					r.Evals(int64(len(st.seqs)))
+					if r.Violations() > 100 {
+						r.NotExhaustive("stopped after more than 100 violations")
+						break
+					}
+				}
+				for o := range out {
+					r.DistinctHash(o)
+				}
+			}()
+		}
+		wg.Wait()
+		r.Sample(map[string]any{"part": "carrier", "layout": st.mode, "headers": lists[len(lists)/2], "ops": st.seqs[len(st.seqs)/3]})
+	}
+	r.Set("carrier_op_sequences_by_layout", seqCounts)
 }
 
 // ---------------------------------------------------------------- part B
@@ -304,6 +409,7 @@ func (t *childTracer) Start(ctx context.Context, name string, opts ...trace.Span
 type WireCase struct {
 	Provider string `json:"provider"`
 	Headers  model  `json:"headers"`
+	Alias    string `json:"alias,omitempty"` // memory layout of the header values ("" = fresh)
 	Sampled  bool   `json:"sampled"`
 	State    string `json:"tracestate"`
 	Index    int    `json:"index"`
@@ -364,35 +470,59 @@ func partB(r *ev.Run) {
 		var cases []WireCase
 		var recs []*kgo.Record
 		var parents []trace.SpanContext
-		for _, hs := range wireShapes() {
-			for _, v := range []struct {
-				sampled bool
-				state   string
-			}{{true, ""}, {false, ""}, {true, "vendor=x,other=y"}} {
-				i := len(cases)
-				wc := WireCase{Provider: provider, Headers: hs, Sampled: v.sampled, State: v.state, Index: i}
-				cases = append(cases, wc)
-				var flags trace.TraceFlags
-				if v.sampled {
-					flags = trace.FlagsSampled
-				}
-				ts, err := trace.ParseTraceState(v.state)
-				if err != nil {
-					ev.InfraError("tracestate: %v", err)
-				}
-				sc := trace.NewSpanContext(trace.SpanContextConfig{
-					TraceID:    trace.TraceID{0x11, byte(i + 1), 3, 4, 5, 6, 7, 8, 9, 10, 11, 12, 13, 14, 15, 16},
-					SpanID:     trace.SpanID{0x22, byte(i + 1), 3, 4, 5, 6, 7, 8},
-					TraceFlags: flags,
-					TraceState: ts,
-				})
-				parents = append(parents, sc)
-				recs = append(recs, &kgo.Record{
-					Value:   []byte(strconv.Itoa(i)),
-					Headers: headersOf(hs),
-					Context: trace.ContextWithSpanContext(context.Background(), sc),
-				})
+		var guards []guard
+		type variant struct {
+			sampled bool
+			state   string
+		}
+		variants := []variant{{true, ""}, {false, ""}, {true, "vendor=x,other=y"}}
+		addCase := func(hs model, headers []kgo.RecordHeader, alias string, v variant) {
+			i := len(cases)
+			wc := WireCase{Provider: provider, Headers: hs, Alias: alias, Sampled: v.sampled, State: v.state, Index: i}
+			cases = append(cases, wc)
+			var flags trace.TraceFlags
+			if v.sampled {
+				flags = trace.FlagsSampled
 			}
+			ts, err := trace.ParseTraceState(v.state)
+			if err != nil {
+				ev.InfraError("tracestate: %v", err)
+			}
+			sc := trace.NewSpanContext(trace.SpanContextConfig{
+				TraceID:    trace.TraceID{0x11, byte(i + 1), 3, 4, 5, 6, 7, 8, 9, 10, 11, 12, 13, 14, 15, 16},
+				SpanID:     trace.SpanID{0x22, byte(i + 1), 3, 4, 5, 6, 7, 8},
+				TraceFlags: flags,
+				TraceState: ts,
+			})
+			parents = append(parents, sc)
+			recs = append(recs, &kgo.Record{
+				Value:   []byte(strconv.Itoa(i)),
+				Headers: headers,
+				Context: trace.ContextWithSpanContext(context.Background(), sc),
+			})
+		}
+		for _, hs := range wireShapes() {
+			for _, v := range variants {
+				addCase(hs, headersOf(hs), "", v)
+			}
+		}
+		// aliasing shapes: value bytes shared between headers / between records
+		for _, v := range variants {
+			// two headers of one record built from one []byte
+			x := []byte(stale1)
+			guards = append(guards, newGuard(x))
+			addCase(model{{"k1", "a"}, {"traceparent", stale1}, {"audit", stale1}},
+				[]kgo.RecordHeader{{Key: "k1", Value: []byte("a")}, {Key: "traceparent", Value: x}, {Key: "audit", Value: x}}, aliasSameBytes, v)
+			// fan-out: one source record re-produced twice with shallow-copied Headers
+			srcModel := model{{"k1", "a"}, {"traceparent", stale1}, {"tracestate", "old=1"}, {"k2", "b"}}
+			src := headersOf(srcModel)
+			for _, h := range src {
+				guards = append(guards, newGuard(h.Value))
+			}
+			v2 := v
+			v2.state = "vendor=x,other=y" // the stale tracestate must be replaced in every copy
+			addCase(srcModel, append([]kgo.RecordHeader(nil), src...), aliasFanOut+"/copy-1", v2)
+			addCase(srcModel, append([]kgo.RecordHeader(nil), src...), aliasFanOut+"/copy-2", v2)
 		}
 
 		ctx, cancel := context.WithTimeout(context.Background(), 120*time.Second) // safety net only
@@ -431,6 +561,13 @@ func partB(r *ev.Run) {
 			wantHeaders[i] = m
 			if !sameHeaders(rec.Headers, m) {
 				viol("produce-headers", "headers after the producer hook are "+fmtHeaders(rec.Headers)+", expected "+fmtModel(m))
+			}
+		}
+
+		// the hooks must not have written into value bytes that existed before
+		for _, g := range guards {
+			if string(g.mem) != string(g.snap) {
+				r.Violation("wire/wrote-into-existing-bytes", fmt.Sprintf("header value bytes shared with another header/record changed from %q to %q during the producer hook", g.snap, g.mem), map[string]any{"part": "wire", "provider": provider})
 			}
 		}
 
@@ -491,7 +628,7 @@ func partB(r *ev.Run) {
 			if !sameSC(hooked, injected[i]) {
 				viol("consumer-hook", "consumer hook extracted "+scString(hooked)+", injected was "+scString(injected[i]))
 			}
-			r.Distinct(fmt.Sprintf("wire/%s/%s/%v/%s", provider, fmtModel(cases[i].Headers), cases[i].Sampled, cases[i].State))
+			r.Distinct(fmt.Sprintf("wire/%s/%s/%s/%v/%s", provider, cases[i].Alias, fmtModel(cases[i].Headers), cases[i].Sampled, cases[i].State))
 		}
 		r.Sample(map[string]any{"part": "wire", "case": cases[len(cases)-1], "consumed_headers": fmtHeaders(got[len(cases)-1].Headers)})
 		pcl.Close()
@@ -507,7 +644,7 @@ func main() {
 		return
 	}
 	r := ev.New("C37", "exploration")
-	r.Rule("part A: every header list of length <=3 (thorough 4) over keys {k1,k2} x values {a,b}, duplicates included, x every sequence of length <=3 (thorough 4) over Set(k in {k1,k2,k3}, v in {a,b,c}), Get(k in {k1,k2,k3}), Keys; a case is one (list, sequence) pair, distinct = distinct (results, final headers) outcomes. part B: 8 pre-existing header shapes (none, unrelated, stale traceparent, duplicate stale traceparents, traceparent in the middle, duplicate unrelated keys, differently-cased key, garbage+stale) x {sampled, unsampled, sampled+tracestate} x {non-recording provider, deterministic child-span provider}, one record each through kgo+kfake")
+	r.Rule("part A: every header list of length <=3 (thorough 4) over keys {k1,k2} x values {a,b}, duplicates included, x 4 memory layouts of the initial value bytes (fresh allocations; equal values sharing one []byte; all values consecutive sub-slices of one buffer with capacity running on; fan-out = two records with shallow-copied Headers slices sharing the value bytes) x every sequence of length <=3 (thorough 4; fan-out 3) over Set(k in {k1,k2,k3}, v in {a,b,c}; one-buffer layout {a,c,ccc}), Get(k in {k1,k2,k3}), Keys (fan-out: on either record); after every operation every header of every record is compared with the list model and every pre-existing value byte with its snapshot; a case is one (layout, list, sequence) triple, distinct = distinct (results, final headers) outcomes. part B: 8 pre-existing header shapes (none, unrelated, stale traceparent, duplicate stale traceparents, traceparent in the middle, duplicate unrelated keys, differently-cased key, garbage+stale) + 2 aliasing shapes (two headers of one record built from one []byte; one source header list shallow-copied into two records produced separately) x {sampled, unsampled, sampled+tracestate} x {non-recording provider, deterministic child-span provider}, one record each through kgo+kfake")
 	r.Assume("go.opentelemetry.io/otel propagation.TraceContext is correct (it is the propagator under which the carrier is exercised)",
 		"the wire part uses real sockets to kfake; its only timing element is a 120 s safety-net context that yields an infrastructure error, never a verdict",
 		"Set on an absent key appends at the end; Set on a present key rewrites the first header with that key (what Get reads)")
@@ -526,6 +663,7 @@ func replay(path string) {
 			Part    string `json:"part"`
 			Headers model  `json:"headers"`
 			Ops     []Op   `json:"ops"`
+			Layout  string `json:"layout"`
 		} `json:"artefact"`
 	}
 	if err := json.Unmarshal(b, &v); err != nil {
@@ -535,7 +673,10 @@ func replay(path string) {
 		fmt.Println("REPLAY: wire cases are replayed by re-running the check (the whole wire part takes about a second)")
 		os.Exit(2)
 	}
-	if f, _ := runCarrier(v.Artefact.Headers, v.Artefact.Ops); f != nil {
+	if v.Artefact.Layout == "" {
+		v.Artefact.Layout = aliasFresh
+	}
+	if f, _ := runCarrier(v.Artefact.Headers, v.Artefact.Ops, v.Artefact.Layout); f != nil {
 		fmt.Printf("REPLAY: VIOLATION key=%s\n  %s\n", f.key, f.what)
 		os.Exit(1)
 	}
